@@ -116,6 +116,10 @@ func New(opts *Options) (*NSQD, error) {
 		return nil, errors.New("--node-id must be [0,1024)")
 	}
 
+	if opts.QueueScanSelectionCount < 1 {
+		return nil, errors.New("--queue-scan-selection-count must be at least 1")
+	}
+
 	if opts.TLSClientAuthPolicy != "" && opts.TLSRequired == TLSNotRequired {
 		opts.TLSRequired = TLSRequired
 	}
